@@ -413,7 +413,10 @@ def run(rep):
                        "composition: with single-producer/single-consumer queues (ownership table in this evidence), prefix-independent rules and C03/C04's closed forms, "
                        "every recorded quantity is a function of the input streams only -- this composition is a paper argument (DESIGN.md), not a solver result",
                        "suffix items honour the producer's contract (FIFO-monotone on-grid receive times, consecutive ticks)",
-                       "outside: the snapshot of *other* nodes' step states inside the returned GraphState (racy by construction), wall-clock mode"]
+                       "outside: the snapshot of *other* nodes' step states inside the returned GraphState (racy by construction), wall-clock mode",
+                       "outside: progress -- R1-R3 are per rule firing; that an enabled rule is eventually re-attempted (e.g. push_selection serves one expectation per poke) "
+                       "is liveness (C05); a stalled run records a prefix of the completed one",
+                       "outside: the order of the `nodes` mapping given to AsyncGraph (it fixes which input gets which delay key)"]
     rep.stubs = ["_submit -> recorder", "time.time/time.sleep -> symbolic non-decreasing instants / no-op", "Future -> single-threaded stand-in"]
     rep.extra["queue_ownership"] = ownership_table()
     obs = []
@@ -421,8 +424,9 @@ def run(rep):
     obs += pmap("props.c02", "worker", normal, rep.tier)
     # start-up order: a sender started before its receiver announces arrivals to a connection that is READY, not yet RUNNING; dropping them would make
     # the episode depend on how far the main thread's start loop had got
-    ready = pmap("props.c03", "worker", [dict(scen="push_ts_input", nq=0, blocking=b, eps=0, state="ready") for b in (False, True)], rep.tier)
-    obs += [o for o in ready if "is accepted" in o.get("name", "") or "raise no exception" in o.get("name", "") or o.get("verdict") == "error"]  # the timing clauses of that scenario are C03's
+    ready = pmap("props.c03", "worker", [dict(scen="push_ts_input", nq=0, blocking=b, eps=0, state="ready") for b in (False, True)]
+                 + [dict(scen="push_zip", blocking=b, state="ready") for b in (False, True)], rep.tier)
+    obs += [o for o in ready if "is accepted" in o.get("name", "") or "is paired with" in o.get("name", "") or "raise no exception" in o.get("name", "") or o.get("verdict") == "error"]  # the timing clauses of that scenario are C03's
     rep.encode(N._reset, W.reset, W.push_ts_input)
     obs += pmap("props.c02", "worker_reset", [dict(blocking=False), dict(blocking=True)], rep.tier, serial=True)
     orders = [c for c in cfgs if c["kind"] == "orders"]
